@@ -141,7 +141,7 @@ type Path struct {
 	lenient   bool
 	ufTable   map[string]uint64
 	pools     map[string][]Value // sync.Pool contents, keyed by pool object
-	pure      bool // speculative evaluation during if-conversion: anything that would fork or raise aborts
+	pure      bool               // speculative evaluation during if-conversion: anything that would fork or raise aborts
 }
 
 type obsRec struct {
